@@ -619,7 +619,51 @@ func exhaustive(c *vh.Ctx, specs []pki.Spec, nregs, depth int) {
 	c.Exhaustive(fmt.Sprintf("every op sequence of length <= %d over %d ops (AddCert of %d universe certificates into 2 pools, Sum in both orders and with nil, AppendCertsFromPEM with junk/non-certificate blocks, NewCertPool)", depth, len(alpha), len(w.xs)))
 }
 
+// CheckSignatureFrom on every combination of the parent fields it reads (struct copies of parsed
+// certificates), for a verifying and a non-verifying key, and with the exempted Entrust key
+func sigCases(c *vh.Ctx) {
+	w, err := build(fixedUniverse())
+	if err != nil {
+		panic(err)
+	}
+	child0 := w.xs[2] // issued under name 0, signed by key 0
+	n := 0
+	for _, par := range []*x509.Certificate{w.xs[0], w.xs[1]} {
+		for _, ver := range []int{1, 3} {
+			for _, bc := range []bool{false, true} {
+				for _, ca := range []bool{false, true} {
+					for _, ku := range []x509.KeyUsage{0, x509.KeyUsageCertSign, x509.KeyUsageDigitalSignature, x509.KeyUsageCertSign | x509.KeyUsageCRLSign} {
+						for variant := 0; variant < 4; variant++ {
+							p2, ch := *par, *child0
+							p2.Version, p2.BasicConstraintsValid, p2.IsCA, p2.KeyUsage = ver, bc, ca, ku
+							switch variant {
+							case 1:
+								p2.PublicKeyAlgorithm = x509.UnknownPublicKeyAlgorithm
+							case 2:
+								p2.RawSubject = w.xs[3].RawSubject // name mismatch
+							case 3:
+								ch.RawSubjectPublicKeyInfo = x509.VerifEntrustSPKI()
+							}
+							sg := p2.CheckSignature(ch.SignatureAlgorithm, ch.RawTBSCertificate, ch.Signature) == nil
+							got := ch.CheckSignatureFrom(&p2) == nil
+							in := map[string]interface{}{"kind": "checksig", "parent": w.u.FP(par), "version": ver, "bc": bc, "ca": ca, "ku": int(ku), "variant": variant}
+							c.Case("scase", vh.Pair(w.u.Abs(&ch), w.u.Abs(&p2), vh.Bool(sg), vh.Bool(got)), in, fmt.Sprint(in))
+							n++
+							if got && (!sg || string(p2.RawSubject) != string(ch.RawIssuer)) {
+								c.Violation("checksig-unsound", fmt.Sprintf("CheckSignatureFrom = nil with signature ok = %v, issuer = subject: %v (%v)", sg,
+									string(p2.RawSubject) == string(ch.RawIssuer), in), "scase", in)
+							}
+						}
+					}
+				}
+			}
+		}
+	}
+	c.Exhaustive(fmt.Sprintf("CheckSignatureFrom on %d combinations of parent version / basicConstraints / cA / keyUsage / key algorithm / name match / signature validity / Entrust key", n))
+}
+
 func gen(c *vh.Ctx) {
+	sigCases(c)
 	fu := fixedUniverse()
 	depth := 4
 	if c.Thorough {
@@ -680,7 +724,7 @@ func replay(c *vh.Ctx, raw json.RawMessage) {
 		panic(err)
 	}
 	if len(in.Univ) == 0 {
-		gen(c)
+		sigCases(c) // scase / exhaustive inputs are regenerated, not stored
 		return
 	}
 	runCase(c, in, "case")
